@@ -25,7 +25,7 @@ def hashStep (w : List String) : String :=
 def thetaTunables : Theta.Tunables :=
   { rszNum := DSGen.theta_RESIZE_THRESHOLD_num, rszDen := DSGen.theta_RESIZE_THRESHOLD_den,
     rbdNum := DSGen.theta_REBUILD_THRESHOLD_num, rbdDen := DSGen.theta_REBUILD_THRESHOLD_den,
-    minLgK := DSGen.theta_MIN_LG_K }
+    minLgK := DSGen.theta_MIN_LG_K, theta0Floor := DSGen.theta_STARTING_THETA_FLOOR }
 
 def main (args : List String) : IO UInt32 := do
   match args with
